@@ -95,6 +95,23 @@ CLAIMED = {
             "with symbolic window-manager content",
             "Only GOAWAY frames may be emitted; every frame-producing or stream-opening call "
             "must raise ProtocolError; received GOAWAY empties the pending output.", "7/C19"),
+    'C20': ("every catalogue state with a live stream is reset by the application (or a push "
+            "refused by the library), optionally collected, then 1-2 racing peer frames chosen "
+            "by the solver with symbolic numeric fields are executed symbolically",
+            "No connection error, no event for the reset / refused stream, DATA's whole "
+            "flow-controlled length returned to the connection window, one HPACK decode per "
+            "header block; racing = legal for the peer before it saw the reset.", "7/C20"),
+    'C22': ("push_stream / received PUSH_PROMISE executed symbolically from every distinct "
+            "observer state of the catalogue x ENABLE_PUSH value (current and pending), parent "
+            "and promised ids chosen by the solver",
+            "Success condition of the statement as a predicate over the observer state; "
+            "PushedStreamReceived fields; the promised stream refuses a request; recursive pushes "
+            "refused on both ends.", "7/C22"),
+    'C24': ("advertise_alternative_service / received ALTSVC executed symbolically from every "
+            "distinct observer state of the catalogue with solver-chosen stream id, origin and "
+            "field",
+            "RFC 7838 rules of the statement as predicates over the observer state; argument "
+            "validation; events and their origin.", "7/C24"),
 }
 
 NOT_YET = {}
